@@ -6,7 +6,7 @@ from .replies import (b64, draw_events, draw_payload, exec_envelope, ids_of, ins
                       varint, wellformed_data)
 
 CELLS = ["none", "wellformed", "wellformed-long", "empty-envelope", "wrong-tag", "wrong-wire-type", "truncated", "varint-too-long",
-         "json-garbage", "json-wrong-type", "json-empty-inner", "json-null-inner", "bare-json"]
+         "json-garbage", "json-wrong-type", "json-empty-inner", "json-null-inner", "bare-json", "json-invalid-utf8"]
 
 
 def long_value(ty, size):
@@ -90,6 +90,11 @@ def make_cell(rng, prog, canon, m, cell):
         raw = exec_envelope(inner)
     elif cell == "json-empty-inner":
         raw = pb_field(1, b"")  # field present, zero length
+    elif cell == "json-invalid-utf8":
+        # a string token whose bytes are not UTF-8 (Latin-1 text), or a document behind a byte-order mark: not JSON text
+        if mode not in ("typed", "opt") or prog["types"][m["data_ti"]].rust not in ("String", "Option<String>"):
+            return None, ("skip",)
+        raw = exec_envelope(rng.choice([b'"caf\xe9"', b'"\xff\xfe"', b'\xef\xbb\xbf"bom"', b'"a\xc3"']))
     elif cell == "json-null-inner":
         # present data whose JSON is `null`: only a type that accepts null may decode it; for every other type it is undecodable
         # data, not absent data -- also for the optional mode
